@@ -43,7 +43,7 @@ def run_unit(verif, repo, unit, workdir, rlimit=30, vacuity=False, threads=4):
     out = os.path.join(workdir, unit + ("_vacuity" if vacuity else "") + ".rs")
     res = {"unit": unit, "engine": "verus", "errors": [], "functions": [], "verified": 0, "n_errors": 0,
            "labels": [], "rule_counts": {}, "smt_ms": 0, "total_ms": 0, "cmd": "", "status": "undecided",
-           "reason": "", "obligations": [], "failed": [], "assumptions": []}
+           "reason": "", "obligations": [], "failed": [], "assumptions": {}}
     try:
         meta = build_unit(tpl, repo, out, os.path.join(verif, "contracts"), vacuity=vacuity)
     except (AnchorError, Unsupported) as e:
